@@ -2,7 +2,8 @@
      D <index> <hex|->        decode with description <index>:  "FAIL"  or
                               "OK n=<n> dom=<0|1> pack=<hex|FAIL> size=<n|FAIL> env=<entries>"
      T <sec> <ns>             timestamp adapter: "dec=<hex bits|nan> enc=<hex|FAIL> legacy=<hex|FAIL> dom=<0|1>"
-   integers are printed in hexadecimal (they do not fit OCaml ints: 64-bit patterns) *)
+   integers are printed in hexadecimal (they do not fit OCaml ints: 64-bit patterns); env entries are id=value with
+   value = <hex int> | nan | s:<hex bytes of a string> | b:<hex> | r:[rec|rec..] | t:[hdr rec][obj rec]:<size> | opaque *)
 let rec bits_of_pos (p : positive) : int list = match p with XH -> [1] | XO q -> 0 :: bits_of_pos q | XI q -> 1 :: bits_of_pos q
 let hex_of_pos (p : positive) : string =
   let bits = bits_of_pos p in
@@ -16,12 +17,14 @@ let hex_of_pos (p : positive) : string =
 let hex_of_z (x : z) : string = match x with Z0 -> "0" | Zpos p -> hex_of_pos p | Zneg p -> "-" ^ hex_of_pos p
 let rec n_of_int (n : int) : n = if n = 0 then N0 else Npos (pos_of_int n)
 let int_of_n (x : n) : int = match x with N0 -> 0 | Npos p -> int_of_pos p
-let show_fval (v : codec_fval) = match v with FInt x -> hex_of_z x | FNaN -> "nan"
+let show_fval (v : codec_fval) = match v with FInt x -> hex_of_z x | FNaN -> "nan" | FBytes l -> "s:" ^ ints_to_hex (List.map int_of_z l)
 let show_rec (r : (n * codec_fval) list) = String.concat "," (List.map (fun (i, v) -> Printf.sprintf "%d=%s" (int_of_n i) (show_fval v)) r)
 let show_value (v : codec_value) = match v with
   | VF f -> show_fval f
   | VBytes l -> "b:" ^ ints_to_hex (List.map int_of_z l)
   | VRecs rs -> "r:[" ^ String.concat "|" (List.map show_rec rs) ^ "]"
+  | VTag (h, o, sz) -> Printf.sprintf "t:[%s][%s]:%d" (show_rec h) (show_rec o) (int_of_nat sz)
+  | VOpaque -> "opaque"
 let show_env (e : (n * codec_value) list) = String.concat ";" (List.map (fun (i, v) -> Printf.sprintf "%d=%s" (int_of_n i) (show_value v)) e)
 let find_desc (i : int) = List.assoc (n_of_int i) (List.map (fun (k, d) -> (k, d)) py_descriptions)
 let () =
